@@ -130,6 +130,52 @@ CHECKS.update({
             'first-order terms with Python ==/hash; single-threaded histories (interleavings are C15).', 'DESIGN §4 C17'),
 })
 
+CHECKS.update({
+    'C20': ('Lean 4 proof by structural induction on the object (the hint inferred by the model of infer_hint is satisfied at full depth, '
+            'hence accepted for every draw via C01; termination of the id-set guard on every finite heap) + translator-extracted inference '
+            'tables + differential of real infer_hint against the model and the round trip evaluated on the real outputs under forced draws',
+            'Theorems (Props/C20.lean): for every Inferable object of any nesting and mix, sat(infer(x), x) under the default O(n) strategy, '
+            'hence chk for every configuration and draw; unions are sets; the excluded shapes are exactly those whose hint provably rejects '
+            '(FSM protocol not a superclass) plus self-referential containers; the guarded traversal of any finite heap finishes within '
+            '|heap|+1 nested calls and emits the placeholder and one warning. Tie: tables re-extracted from /repo; generated objects (scalars, '
+            'classes, callables, builtin and user containers, views, ranges, duck-typed look-alikes, self-referential graphs) through real '
+            'infer_hint vs the model; is_bearable(obj, infer_hint(obj)) under 5 forced draws x 3 configurations.',
+            'Partial at F-C20c (recursive containers), F-C20d/e (FSM protocol not a superclass) - known findings with counterexample theorems. '
+            'Trusted: Lean kernel + standard axioms; the harness; callables opaque; numpy inference not modelled; O1 inference tied but not '
+            'claimed at full depth.', 'DESIGN §4 C20'),
+})
+
+CHECKS.update({
+    'C14': ('Lean 4 invariant proof (every memo table stays sound under its key discipline for every finite history; KeyCongruent discharged '
+            'for ==, repr-validated-by-== and id-with-pinned-objects keys, refuted with witnesses for raw repr / raw id keys and stale '
+            'forward-reference referents) + memoisation sites and key disciplines re-extracted from the source AST on every run + '
+            'fresh-interpreter differential and table lock-step on the real code',
+            'Theorems (Props/C14.lean): after every finite history of queries, failing queries, garbage collections, class redefinitions and '
+            'cache clears a memoised system with a congruent key relation answers every query as a fresh interpreter (values and cached '
+            'exceptions; cached = first-time; congruence is necessary); the checker pipeline and the id-keyed TypeHint tables satisfy it; a '
+            'failed forward reference leaves no trace and resolves once defined; decorated redefinition and clear_caches() restore fresh '
+            'answers; every memoising decorator / module cache found in the source uses a discipline with a full-strength theorem. Tied to '
+            '/repo by comparing the queries of adversarial histories with fresh interpreters and by lock-step of the table model.',
+            'Partial: forward-reference referents only while no name is bound twice (2 known findings). == congruence assumed for beartype\'s '
+            'full hint semantics (proved for a concrete sub-language). Fresh interpreter = fork of a pristine interpreter. Trusted: Lean '
+            'kernel + standard axioms, AST translator, harness; single-threaded.', 'DESIGN §4 C14'),
+})
+
+CHECKS.update({
+    'C19': ('Lean 4 proof over an executable model of beartype.door (is_subhint / TypeHint) for every hint and every fuel + model/real '
+            'comparison of every ordered pair and real-output oracles over all triples',
+            'Theorems (Props/C19.lean): reflexivity of is_subhint and == for every hint; soundness w.r.t. the published meaning (Bear core sat) '
+            'on the Any-free Callable-free grammar; transitivity under explicit decidable side conditions, each excluded shape kept as a '
+            'decided counterexample that the harness re-finds on the real code (known findings); == implies mutual subhint; '
+            'len/iter/getitem/contains/args describe the same children; TypeHint(h) is TypeHint(h). Tie: real is_subhint, ==, len/iter/args/'
+            'is_ignorable of a fixed pool of 136 hints (every wrapper class, depth <= 2) plus seeded hints compared with the model for every '
+            'ordered pair; reflexivity, transitivity over all triples, soundness against real is_bearable under forced draws, identity, '
+            '==/hash/mutual-subhint and children oracles evaluated on the real outputs.',
+            'Trusted: Lean kernel + standard axioms; the harness; class table extracted per run. Partial: C19_refl_partial, C19_trans_partial, '
+            'C19_eq_hash_partial (7 known findings); Callable/type[...]/validator-annotated hints have no modelled meaning; generic classes '
+            'outside the model.', 'DESIGN §4 C19'),
+})
+
 PENDING = {
 }
 
